@@ -804,6 +804,9 @@ func c19DebugCompile(c *Ctx, r *RNG) {
 	a.file = a.payload
 	emitCli(c, "debugcompile", VL{VN(uint64(r.Intn(2)))}, fvals(a), VL{a.desc()}, true)
 	c.Count("debugcompile:archives")
+	for k := 0; k < 2; k++ { // the same archive through a damaged patch: robustness only
+		emitCli(c, "compilebad", VL{VN(uint64(r.Intn(6))), VN(uint64(r.Intn(1 << 20)))}, fvals(a), VL{VN(1)}, true)
+	}
 }
 
 func permIdx(r *RNG, n int) []int {
